@@ -87,7 +87,8 @@ def _check(prop, tier, seed, replay, work, t0):
     ne = 64 if tier == "quick" else 640
     ework = os.path.join(work, "e2e")
     os.makedirs(ework)
-    cmds = [[e2e, "-seed", str(seed), "-n", str(ne), "-work", ework, "-shard", str(i), "-shards", str(shards), "-events", os.path.join(work, "ev%d.ndjson" % i),
+    npc = 48 if tier == "quick" else 320
+    cmds = [[e2e, "-seed", str(seed), "-n", str(ne), "-pipecrash", str(npc), "-work", ework, "-shard", str(i), "-shards", str(shards), "-events", os.path.join(work, "ev%d.ndjson" % i),
              "-out", os.path.join(work, "e%d.ndjson" % i), "-stats", os.path.join(work, "es%d.json" % i)] for i in range(shards)]
     for rc, out in vlib.run_parallel(cmds, timeout=6000):
         if rc != 0:
